@@ -241,15 +241,23 @@ func appendSnapshotFlavors(b []byte, s *slip.Scope) []byte {
 }
 
 func appendSnapshotClasses(b []byte, s *slip.Scope) []byte {
-	// Only the classes defined with defclass or define-condition are
-	// included, not the flavors and not the built in classes.
+	// Only the classes defined with defclass or define-condition and the
+	// structures defined with defstruct are included, not the flavors and
+	// not the built in classes.
 	var ca []slip.Class
 	for _, p := range slip.AllPackages() {
 		if isCorePackage(p) {
 			continue
 		}
 		p.EachClass(func(c slip.Class) {
-			if fc, ok := c.(interface{ IsFinal() bool }); ok && c.Pkg() == p && !fc.IsFinal() {
+			if c.Pkg() != p {
+				return
+			}
+			if fc, ok := c.(interface{ IsFinal() bool }); ok {
+				if !fc.IsFinal() {
+					ca = append(ca, c)
+				}
+			} else if c.Metaclass() == slip.Symbol("structure-class") {
 				ca = append(ca, c)
 			}
 		})
@@ -504,6 +512,22 @@ func ppInstance(inst *flavors.Instance) slip.Object {
 	return form
 }
 
+// hasDefinition returns true if the function can be written as a form that
+// defines it. A function made by other means, the constructor, accessors,
+// copier, and predicate of a structure, has no body to write and is made
+// again by the form that made it, the defstruct form.
+func hasDefinition(fi *slip.FuncInfo) bool {
+	switch fi.Kind {
+	case slip.FlosSymbol, slip.GenericFunctionSymbol:
+		return true
+	}
+	if fun, _ := fi.Create(nil).(slip.Funky); fun != nil {
+		_, ok := fun.Caller().(*slip.Lambda)
+		return ok
+	}
+	return false
+}
+
 func appendSnapshotFunctions(b []byte, s *slip.Scope) []byte {
 	// Skip locked and imported packages.
 	for _, p := range slip.AllPackages() {
@@ -514,7 +538,7 @@ func appendSnapshotFunctions(b []byte, s *slip.Scope) []byte {
 		p.EachFuncInfo(func(fi *slip.FuncInfo) {
 			// A function that is called by another but is not defined
 			// yet has no description and nothing to save.
-			if fi.Pkg == p && fi.Doc != nil {
+			if fi.Pkg == p && fi.Doc != nil && hasDefinition(fi) {
 				// The generic function of a slot reader, writer, or
 				// accessor is made by the defclass form. A defgeneric
 				// form after it would remove those methods.
